@@ -43,6 +43,8 @@ CHECKS = {
              text="For 22 deterministic programs (arithmetic, transcendental, indexing/slicing/gather, reductions, dot/matmul/transpose, integer/boolean intermediates, dtype conversions, where, cond with either branch; scalar, array and pytree arguments) the primal, tangent and gradient terms of the ADEV transformation are proved equal to JAX's for ALL inputs and tangents, with equal shapes/dtypes; tracing must succeed for every argument shape (estimate included).", ref="3 C15"),
  "C11": dict(technique="Jaxpr-to-SMT encoding of ADEV estimate/jvp_estimate/grad_estimate (z3): enumeration vs exact finite sums, pathwise derivative identities, probability-weighted sums over discrete outcomes",
              text="For expectation programs over every primitive family: enumeration primitives (flip_enum, flip_enum_parallel, categorical_enum_parallel) give the exact expectation and derivative and do not depend on any outcome (zero variance); reparameterised primitives (normal, uniform, mvn-diag) give exactly d/dtheta f(g(noise;theta),theta) for the drawn noise and the noise site is theta-independent N(0,1)/U(0,1); discrete score-function / measure-valued primitives (flip_reinforce, flip_mvd, batched lane-wise variants) average over all outcomes to the exact derivative (rational identity over theta in (0,1)); normal_reinforce has the score-function form; compositions, cond continuations, and the same under jit(seed(.)) and modular_vmap.", ref="3 C11"),
+ "C17": dict(technique="Jaxpr-to-SMT encoding of elbo_factory(...).estimate/grad_estimate and optimize_vi/elbo_vi (z3, nlsat portfolio): per-draw identities, conjugate tightness as a polynomial identity",
+             text="estimate == log p(obs, z) - log q(z; phi) for every draw z (reparameterised and score-function families, also with a constraint overlapping the sampled address), so it is unbiased for E_q[log p - log q]; at the exact conjugate posterior (symbolic scales) it equals log p(obs) for every draw; grad_estimate equals the pathwise / score-function gradient of the reference per-draw objective; optimize_vi and elbo_vi, unrolled for <= 3 iterations, apply params + lr * gradient and return every iterate; the mean-field family works with array parameters.", ref="3 C17"),
 }
 NA = {}
 
